@@ -108,3 +108,9 @@ impl Seek for Seg {
         Ok(np as u64)
     }
 }
+
+/// stand-in for String::from_utf8_lossy: the library calls it only to put magic bytes into error messages
+/// (and message text is never the subject); without it every magic check costs minutes of UTF-8 decoding
+pub fn lossy_stub(v: &[u8]) -> std::borrow::Cow<'_, str> {
+    std::borrow::Cow::Borrowed(unsafe { std::str::from_utf8_unchecked(v) })
+}
